@@ -139,12 +139,23 @@ def rand_expr(rng, depth, need_html=True):
     a = rand_expr(rng, depth - 1, need_html and side)
     b = rand_expr(rng, depth - 1, need_html and not side)
     if need_html and rng.random() < 0.15:
-        num = {"leaf": "num", "v": rng.choice([0, 5, -3, 1.5, 1e300, True])}
+        num = {"leaf": "num", "v": rng.choice([0, 5, -3, 1.5, 1e300, True])} if rng.random() < 0.5 else \
+            {"leaf": "strobj", "v": gen.text_of(rng, rng.choice(["meta", "markup", "word"]))}
         if side:
             b = num
         else:
             a = num
     return {"op": rng.choice(["add", "add", "iadd", "radd"]), "l": a, "r": b}
+
+
+class StrObj:
+    """An arbitrary object (not a str) whose text needs escaping."""
+
+    def __init__(self, s):
+        self.s = s
+
+    def __str__(self):
+        return self.s
 
 
 class ExprFail(Exception):
@@ -163,6 +174,8 @@ def eval_expr(e, log, values=None):
             h = ht.HTML(e["v"])
             values.append((h, e["v"]))
             return h, ("html", [("html", e["v"])])
+        if e["leaf"] == "strobj":
+            return StrObj(e["v"]), ("num", e["v"])  # any non-str object contributes str(object), escaped once
         return e["v"], ("num", e["v"])
     lv, lm = eval_expr(e["l"], log, values)
     rv, rm = eval_expr(e["r"], log, values)
@@ -250,6 +263,13 @@ def check_expr(ctx, e):
     a = ht.div(title=v).get_html_string()
     if ' title="%s"' % s not in a:
         ctx.violation("html-attr-not-verbatim", "HTML() attribute value not emitted verbatim", wit)
+        return False
+    # the same value taken through consolidate_attrs() and put on a tag
+    attrs, _ = ht.consolidate_attrs({"title": v}, "child", data_v=v)
+    b = ht.Tag("div", attrs).get_html_string()
+    ctx.count("oracle.consolidate_route")
+    if ' title="%s"' % s not in b or ' data-v="%s"' % s not in b:
+        ctx.violation("html-attr-not-verbatim", "HTML() attribute value changed on its way through consolidate_attrs()", dict(wit, output=b[:600]))
         return False
     return True
 
